@@ -8,6 +8,7 @@ from hplverif.mast import FALSE, TRUE, binop, own
 SMALL_THIS = {
     'fields': {
         'x': ('num', 'int32'),
+        'z': ('num', 'float64'),
         'p': ('bool',),
         'q': ('bool',),
         'xs': ('arr', ('num', 'int32'), -1),
@@ -95,6 +96,46 @@ VAR_BODIES = [
 PLAIN_BODIES = [P, binop('>', X, L(0)), AB]
 
 
+def F(text):
+    return ('lit', 'float', text)
+
+
+# Algebraic-law families: the shapes on which an algebraic simplifier typically has (or grows) rules -
+# power towers and products of powers with integer, negative and fractional exponents; linear terms
+# with two constants (re-association, cancelling, solving a comparison for the variable, where the sign
+# of a multiplier matters); pairs of comparisons over the same operands in either order under a connective.
+POW_BASES = [X, AY, ('un', '-', X), binop('+', X, L(1)), L(2), binop('*', X, AY), L(0)]
+POW_EXPS = [L(0), L(1), L(2), L(3), ('un', '-', L(1)), ('un', '-', L(2)), F('0.5'), F('1.5')]
+LIN_VARS = [X, AY, ('un', '-', X)]
+LIN_CONSTS = [L(0), L(1), L(2), ('un', '-', L(1)), F('0.5'), L(3)]
+LIN_OPS = ['+', '-', '*', '/']
+Z = own('z')
+CMP_ATOMS = [X, Z, AY, L(0), L(1)]
+CMP_ALL = [binop(r, a, b) for r in RELS for a in CMP_ATOMS for b in CMP_ATOMS]
+
+VARI_BODIES = [binop('>', ('var', 'i'), L(0)), binop('=', ('var', 'i'), X)]
+VARJ_BODIES = [binop('<', ('var', 'j'), AY), binop('>', ('var', 'j'), ('var', 'i'))]
+NEST_DOM1 = [XS, AYS, ('set', (L(1), L(2)))]
+NEST_DOM2 = [XS, AYS, ('range', L(0), L(1), False, False)]
+
+
+def _nested(qk1, qk2, d1, d2, vi, vj, pl, op1, op2, form):
+    if form == 0:
+        body = binop(op1, vi, binop(op2, vj, pl))
+    elif form == 1:
+        body = binop(op1, binop(op2, vj, pl), vi)
+    elif form == 2:
+        body = binop(op1, binop(op2, vi, pl), vj)
+    else:
+        body = ('un', 'not', binop(op1, vj, binop(op2, pl, vi)))
+    return ('q', qk1, 'i', d1, ('q', qk2, 'j', d2, body))
+
+
+def _nested_outer(qk1, qk2, d1, d2, vi, vj, pl, op1, op2):
+    # the outer body is itself a connective around the inner quantifier
+    return ('q', qk1, 'i', d1, binop(op1, binop(op2, vi, pl), ('q', qk2, 'j', d2, vj)))
+
+
 class Family:
     """A lazily indexed family of terms: len() and __getitem__ without materialising products."""
 
@@ -140,6 +181,23 @@ def families():
         Family('quant_conn', [CONN, quants, bool_terms(0)], lambda op, a, b: binop(op, a, b)),
         Family('quant_conn_r', [CONN, bool_terms(0), quants], lambda op, a, b: binop(op, a, b)),
         Family('bool_cmp', [CONN, [binop(r, a, b) for r in ('=', '<', '>=') for a in NUM_ATOMS for b in NUM_ATOMS], bool_terms(0)], lambda op, a, b: binop(op, a, b)),
+        Family('pow_tower_l', [POW_BASES, POW_EXPS, POW_EXPS], lambda b, e1, e2: binop('**', binop('**', b, e1), e2)),
+        Family('pow_tower_r', [POW_BASES, POW_EXPS, POW_EXPS], lambda b, e1, e2: binop('**', b, binop('**', e1, e2))),
+        Family('pow_product', [['*', '/', '+', '-'], POW_BASES, POW_EXPS, POW_EXPS], lambda op, b, e1, e2: binop(op, binop('**', b, e1), binop('**', b, e2))),
+        Family('pow_of_product', [['*', '/'], POW_BASES, NUM_ATOMS, POW_EXPS], lambda op, a, b, e: binop('**', binop(op, a, b), e)),
+        Family('pow_base_const', [POW_EXPS, LIN_VARS, LIN_OPS, LIN_CONSTS], lambda c, v, op, k: binop('**', c, binop(op, v, k))),
+        Family('lin_two_consts_l', [LIN_OPS, LIN_OPS, LIN_VARS, LIN_CONSTS, LIN_CONSTS], lambda o1, o2, v, c1, c2: binop(o2, binop(o1, v, c1), c2)),
+        Family('lin_two_consts_r', [LIN_OPS, LIN_OPS, LIN_VARS, LIN_CONSTS, LIN_CONSTS], lambda o1, o2, v, c1, c2: binop(o2, c2, binop(o1, c1, v))),
+        Family('lin_same_var', [LIN_OPS, LIN_OPS, LIN_VARS, LIN_CONSTS], lambda o1, o2, v, c: binop(o2, binop(o1, v, c), v)),
+        Family('lin_cmp', [RELS, LIN_OPS, LIN_VARS, LIN_CONSTS, LIN_CONSTS], lambda r, o, v, c1, c2: binop(r, binop(o, v, c1), c2)),
+        Family('lin_cmp_r', [RELS, LIN_OPS, LIN_VARS, LIN_CONSTS, LIN_CONSTS], lambda r, o, v, c1, c2: binop(r, c2, binop(o, c1, v))),
+        Family('lin_cmp_both', [RELS, LIN_OPS, LIN_VARS, LIN_VARS, LIN_CONSTS], lambda r, o, v, w, c: binop(r, binop(o, v, c), binop(o, w, c))),
+        Family('cmp_pair', [CONN + ['=', '!='], CMP_ALL, CMP_ALL], lambda op, a, b: binop(op, a, b)),
+        Family('cmp_pair_not', [['and', 'or'], CMP_ALL, CMP_ALL], lambda op, a, b: binop(op, a, ('un', 'not', b))),
+        Family('nested_quant', [['forall', 'exists'], ['forall', 'exists'], NEST_DOM1, NEST_DOM2, VARI_BODIES, VARJ_BODIES, PLAIN_BODIES,
+                                ['and', 'or', 'implies'], ['and', 'or', 'implies'], [0, 1, 2, 3]], _nested),
+        Family('nested_quant_outer', [['forall', 'exists'], ['forall', 'exists'], NEST_DOM1, NEST_DOM2, VARI_BODIES, VARJ_BODIES, PLAIN_BODIES,
+                                      ['and', 'or', 'implies'], ['and', 'or', 'implies']], _nested_outer),
     ]
     return fams
 
@@ -157,4 +215,5 @@ def nth(fams, idx):
 
 
 def boolean_family_names():
-    return {'cmp_depth1', 'bool_depth2', 'bool_not_depth2', 'quant', 'quant_not', 'quant_not2', 'quant_not3', 'bool_not2', 'quant_body_not', 'quant_conn', 'quant_conn_r', 'bool_cmp'}
+    return {'cmp_depth1', 'bool_depth2', 'bool_not_depth2', 'quant', 'quant_not', 'quant_not2', 'quant_not3', 'bool_not2', 'quant_body_not', 'quant_conn', 'quant_conn_r', 'bool_cmp',
+            'lin_cmp', 'lin_cmp_r', 'lin_cmp_both', 'cmp_pair', 'cmp_pair_not', 'nested_quant', 'nested_quant_outer'}  # fmt: skip
